@@ -1,13 +1,21 @@
 package main
 
+import (
+	"encoding/json"
+	"fmt"
+
+	"github.com/yaricom/goNEAT/v4/neat"
+	"github.com/yaricom/goNEAT/v4/neat/genetics"
+)
+
 // C09 — offspring quotas follow shared fitness and total the population size.
 
 func init() {
-	register("C09", "model_checking", runC09, replayEpochs("C09", oQuota))
+	register("C09", "model_checking", runC09, replayC09)
 }
 
 func planC09(c *Ctx) epochPlan {
-	seeds := []string{"xor", "evolved", "disc", "rand"}
+	seeds := []string{"xor", "hb1", "evolved", "hb2", "disc", "hb3", "rand", "hb4", "hb5", "hb6"}
 	modes := []string{"perspecies", "phase", "whole"}
 	fits := []int{1, 2, 3, 4, 5, 6, 0}
 	pl := epochPlan{prop: "C09", oracles: oQuota}
@@ -25,6 +33,222 @@ func planC09(c *Ctx) epochPlan {
 }
 
 func runC09(c *Ctx) {
+	c09Shapes(c)
 	runEpochPlan(c, planC09(c))
 	finishEpochEvidence(c, "E1 choice-tree exploration of multi-epoch runs (see C02); after every epoch the previous generation's objects are inspected: remembered original fitness == assigned fitness; within a species adjusted/original*size is one positive factor (fitness is shared); the unmarked organisms are exactly the top floor(survival*n)+1 by fitness and (phase-wise driving) exactly they are left as parents; expected offspring == adjusted fitness / population mean; without stealing and delta coding the quotas' prefix sums in species order equal the floor of the members' expected-offspring prefix sums with at most one make-up offspring; in ALL cases (stealing, delta coding, population-died fallback) quotas total PopSize; (species-wise driving) every species yields exactly its quota and zero-quota species nothing. states = distinct end-state hashes, transitions = populations produced")
+}
+
+// ---------------------------------------------------------------------------
+// Stage 2 (E4 x complete E1): ALL population shapes below a bound, preparation
+// phase only. A shape is a composition of n organisms into k <= 4 species, each
+// species with an (age, generations since last improvement) pair from a menu; the
+// shape is crossed with fitness landscapes, BabiesStolen, DropOffAge, survival
+// threshold and the population-level stagnation counter (so that delta coding is
+// reached). The real prepareForReproduction runs on each; every answer sequence
+// of the draws it makes (the stolen-babies lottery) is enumerated completely.
+
+type c09Shape struct {
+	Sizes  []int `json:"sizes"`
+	AgeIdx []int `json:"age_idx"`
+	Fit    int   `json:"fit"`
+	Stolen int   `json:"stolen"`
+	Drop   int   `json:"drop"`
+	Surv   int   `json:"surv"`
+	Stag   int   `json:"stagnant"` // 1: population-level stagnation counter at DropOffAge+4
+	AgeSig int   `json:"agesig"`
+}
+
+var c09AgeMenu = [][2]int{{1, 0}, {7, 0}, {7, 6}, {12, 11}} // (age, lag)
+var c09Surv = []float64{0.2, 0.5, 1.0}
+
+func compositions(n, k int) [][]int {
+	if k == 1 {
+		return [][]int{{n}}
+	}
+	var out [][]int
+	for first := 1; first <= n-(k-1); first++ {
+		for _, rest := range compositions(n-first, k-1) {
+			out = append(out, append([]int{first}, rest...))
+		}
+	}
+	return out
+}
+
+func c09BuildShape(sh c09Shape) (*genetics.Population, *neat.Options) {
+	opts := baseOptions()
+	opts.BabiesStolen = sh.Stolen
+	opts.DropOffAge = sh.Drop
+	opts.SurvivalThresh = c09Surv[sh.Surv]
+	opts.AgeSignificance = 1
+	if sh.AgeSig == 1 {
+		opts.AgeSignificance = 1.5
+	}
+	sp := hbSpec{Sizes: sh.Sizes}
+	for _, a := range sh.AgeIdx {
+		sp.Ages = append(sp.Ages, c09AgeMenu[a][0])
+		sp.Lags = append(sp.Lags, c09AgeMenu[a][1])
+	}
+	pop := buildHandBuilt(sp, opts)
+	if sh.Stag == 1 {
+		pop.EpochsHighestLastChanged = sh.Drop + 4
+		pop.HighestFitness = 1e12
+	}
+	n := len(pop.Organisms)
+	for i, o := range pop.Organisms {
+		o.Fitness = fitnessOf(sh.Fit, 1, i, n, o)
+	}
+	return pop, opts
+}
+
+func c09RunShape(c *Ctx, sh c09Shape, prefix []int, cnt map[string]int64) (x *Exec, r *popRun) {
+	ex := &Explorer{Policy: Policy{Name: "Z"}, Horizon: 1000}
+	ex.Body = func(x *Exec) {
+		pop, opts := c09BuildShape(sh)
+		r = &popRun{c: c, sc: EpochScenario{Seed: "shape", Mode: "prepare"}, opts: opts, oracles: oQuota, x: x, cnt: cnt}
+		pre := capturePre(pop, false)
+		exe := &genetics.SequentialPopulationEpochExecutor{}
+		err := exe.VPrepare(opts.NeatContext(), 1, pop)
+		if err != nil {
+			r.violateShape(sh, "prepare-error", "prepareForReproduction failed: "+err.Error())
+			return
+		}
+		r.shape = &sh
+		r.checkQuotas(pre, pop, 1)
+		for _, s := range pop.Species {
+			left := 0
+			for _, o := range pre.members[s] {
+				if !o.VToEliminate() {
+					left++
+				}
+			}
+			if left != len(s.Organisms) {
+				r.violateShape(sh, "parents-missing", fmt.Sprintf("species %d has %d organisms available as parents, %d were not marked for elimination", s.Id, len(s.Organisms), left))
+			}
+		}
+		if sh.Stag == 1 && pop.EpochsHighestLastChanged == 0 {
+			r.count("shapes_with_delta_coding")
+		}
+		h := newFnv()
+		for _, s := range pre.species {
+			h.i(s.ExpectedOffspring)
+		}
+		x.EndHash = uint64(h)
+	}
+	ex.OnPanic = func(x *Exec, p interface{}, stack string) {
+		rr := &popRun{c: c, x: x, cnt: cnt}
+		rr.violateShape(sh, "panic", fmt.Sprintf("panic in prepareForReproduction: %v", p))
+	}
+	x = ex.RunOne(prefix)
+	return x, r
+}
+
+func (r *popRun) violateShape(sh c09Shape, clause, msg string) {
+	js, _ := json.Marshal(sh)
+	params := map[string]interface{}{}
+	_ = json.Unmarshal(js, &params)
+	rp := &Replay{Scenario: "shape", Params: params, Answers: r.x.Answers(), Clause: msg, Trace: string(js)}
+	ord := int64(0)
+	for _, s := range sh.Sizes {
+		ord = ord*16 + int64(s)
+	}
+	r.c.ViolateOrd("C09/"+clause, ord*1000+int64(sh.Fit*10+sh.Stolen), fmt.Sprintf("[shape %s] %s", string(js), msg), rp)
+}
+
+func c09Shapes(c *Ctx) {
+	ns := []int{8}
+	stolen := []int{0, 2, 5, 10}
+	if !c.Quick() {
+		ns = []int{5, 8, 12}
+		stolen = []int{0, 1, 2, 5, 10, 12}
+	}
+	type comp struct {
+		sizes []int
+	}
+	var comps [][]int
+	for _, n := range ns {
+		for k := 1; k <= 4 && k <= n; k++ {
+			comps = append(comps, compositions(n, k)...)
+		}
+	}
+	c.Extra["shape_compositions"] = len(comps)
+	var shapes, execs, dist int64
+	c.Sharded(len(comps), func(ci int) {
+		if c.Expired() {
+			c.MarkCapped("internal deadline reached before every shape was enumerated")
+			return
+		}
+		sizes := comps[ci]
+		k := len(sizes)
+		cnt := map[string]int64{}
+		ageIdx := make([]int, k)
+		total := 1
+		for i := 0; i < k; i++ {
+			total *= len(c09AgeMenu)
+		}
+		for code := 0; code < total; code++ {
+			v := code
+			for i := 0; i < k; i++ {
+				ageIdx[i] = v % len(c09AgeMenu)
+				v /= len(c09AgeMenu)
+			}
+			for fit := 0; fit <= numLandscapes; fit++ {
+				for _, st := range stolen {
+					for _, drop := range []int{1, 15} {
+						for surv := range c09Surv {
+							for stag := 0; stag < 2; stag++ {
+								sh := c09Shape{Sizes: sizes, AgeIdx: append([]int(nil), ageIdx...), Fit: fit, Stolen: st, Drop: drop, Surv: surv, Stag: stag, AgeSig: (code + fit) % 2}
+								shapes++
+								// complete tree of the draws made during preparation
+								var rec func(prefix []int)
+								rec = func(prefix []int) {
+									x, _ := c09RunShape(c, sh, prefix, cnt)
+									execs++
+									c.Distinct(x.EndHash ^ uint64(ci)<<48 ^ uint64(code)<<32)
+									for i := len(prefix); i < len(x.Points); i++ {
+										for alt := 0; alt < x.Points[i].M; alt++ {
+											if alt != x.Points[i].Ans {
+												np := append(append([]int(nil), x.Answers()[:i]...), alt)
+												rec(np)
+											}
+										}
+									}
+								}
+								rec(nil)
+							}
+						}
+					}
+				}
+			}
+		}
+		if ci == len(comps)-1 || ci == 0 {
+			c.Sample(map[string]interface{}{"shape_sizes": sizes, "age_menu": c09AgeMenu, "note": "crossed with every age assignment, landscape, BabiesStolen, DropOffAge, survival threshold and stagnation flag"})
+		}
+		c.mu.Lock()
+		c.Evaluations += execs
+		c.Traces += execs
+		c.Transitions += execs
+		execs = 0
+		c.mu.Unlock()
+		c.Count("shapes_prepared", shapes)
+		shapes = 0
+		for k, v := range cnt {
+			c.Count(k, v)
+		}
+	})
+	_ = dist
+}
+
+func replayC09(c *Ctx, rp *Replay) (bool, string) {
+	if rp.Scenario != "shape" {
+		return replayEpochs("C09", oQuota)(c, rp)
+	}
+	js, _ := json.Marshal(rp.Params)
+	var sh c09Shape
+	_ = json.Unmarshal(js, &sh)
+	cnt := map[string]int64{}
+	c09RunShape(c, sh, rp.Answers, cnt)
+	if c.ViolationCount() > 0 {
+		return true, c.violations[0].Msg
+	}
+	return false, "shape " + string(js)
 }
